@@ -149,6 +149,12 @@ def run_oracle(exe, lines, timeout=180, env=None):
         pre = []
         if pos > 0 and header:
             pre = [header]
+        if pos > 0:
+            # re-establish the parameter context (curve / field selection) the remaining lines were generated for
+            for k in range(pos - 1, -1, -1):
+                if lines[k].split(" ")[0].endswith("_param"):
+                    pre.append(lines[k])
+                    break
         # keep sticky mode lines
         try:
             p = subprocess.run([exe], input="\n".join(pre + chunk) + "\n", stdout=subprocess.PIPE, stderr=subprocess.PIPE,
@@ -180,7 +186,7 @@ def run_oracle(exe, lines, timeout=180, env=None):
             outs.append(sig)
             pos += 1
             crashes += 1
-            if crashes > 50:
+            if crashes > 8:
                 outs.extend(["CRASH too-many"] * (len(lines) - pos))
                 break
     return outs
